@@ -223,3 +223,29 @@ impl no_key::DefaultDecoder<Raw> for RawAdapter {
   type Decoder = RawDecoder;
   const DECODER: RawDecoder = RawDecoder;
 }
+
+// ---------------------------------------------------------------- DataWriter front-end
+
+use super::rig::WriterEnds;
+use crate::dds::with_key::datawriter::DataWriter;
+
+/// Build a DataWriter on top of a rig writer (takes its application ends), wired
+/// as pubsub.rs wires it: command channel + waker slot shared with the Writer.
+pub fn data_writer<D, SA>(ends: WriterEnds, guid: crate::GUID, topic_name: &str, qos: &QosPolicies) -> DataWriter<D, SA>
+where
+  D: Keyed,
+  SA: with_key::SerializerAdapter<D>,
+{
+  let s = shared();
+  DataWriter::<D, SA>::new(
+    s.publisher.clone(),
+    topic(topic_name, true),
+    qos.clone(),
+    guid,
+    ends.cmd_tx,
+    ends.waker,
+    s.disc_tx.clone(),
+    ends.status_rx,
+  )
+  .expect("rig: DataWriter::new")
+}
